@@ -232,7 +232,10 @@ impl<F: Float, L: Label + std::fmt::Debug> TreeNode<F, L> {
 
             // We keep a running total of the aggregate weight in the right split
             // to avoid having to sum over the hash map
-            let total_weight = parent_class_freq.values().sum::<f32>();
+            let total_weight = sorted_frequencies(&parent_class_freq)
+                .into_iter()
+                .map(|(_, x)| *x)
+                .sum::<f32>();
             let mut weight_on_right_side = total_weight;
             let mut weight_on_left_side = 0.0;
 
@@ -646,14 +649,22 @@ fn make_prediction<F: Float, L: Label>(
     }
 }
 
+/// Class frequencies in label order: sums and tie-breaks over them must not depend on the
+/// iteration order of the hash map, which changes from map to map and from run to run.
+fn sorted_frequencies<L: Label>(class_freq: &HashMap<L, f32>) -> Vec<(&L, &f32)> {
+    let mut freqs = class_freq.iter().collect::<Vec<_>>();
+    freqs.sort_by(|a, b| a.0.cmp(b.0));
+    freqs
+}
+
 /// Finds the most frequent class for a hash map of frequencies. If two
 /// classes have the same weight then the first class found with that
 /// frequency is returned.
 fn find_modal_class<L: Label>(class_freq: &HashMap<L, f32>) -> L {
     // TODO: Refactor this with fold_first
 
-    let val = class_freq
-        .iter()
+    let val = sorted_frequencies(class_freq)
+        .into_iter()
         .fold(None, |acc, (idx, freq)| match acc {
             None => Some((idx, freq)),
             Some((_best_idx, best_freq)) => {
@@ -672,12 +683,13 @@ fn find_modal_class<L: Label>(class_freq: &HashMap<L, f32>) -> L {
 
 /// Given the class frequencies calculates the gini impurity of the subset.
 fn gini_impurity<L: Label>(class_freq: &HashMap<L, f32>) -> f32 {
-    let n_samples = class_freq.values().sum::<f32>();
+    let freqs = sorted_frequencies(class_freq);
+    let n_samples = freqs.iter().map(|(_, x)| **x).sum::<f32>();
     assert!(n_samples > 0.0);
 
-    let purity = class_freq
-        .values()
-        .map(|x| x / n_samples)
+    let purity = freqs
+        .iter()
+        .map(|(_, x)| **x / n_samples)
         .map(|x| x * x)
         .sum::<f32>();
 
@@ -686,12 +698,13 @@ fn gini_impurity<L: Label>(class_freq: &HashMap<L, f32>) -> f32 {
 
 /// Given the class frequencies calculates the entropy of the subset.
 fn entropy<L: Label>(class_freq: &HashMap<L, f32>) -> f32 {
-    let n_samples = class_freq.values().sum::<f32>();
+    let freqs = sorted_frequencies(class_freq);
+    let n_samples = freqs.iter().map(|(_, x)| **x).sum::<f32>();
     assert!(n_samples > 0.0);
 
-    class_freq
-        .values()
-        .map(|x| x / n_samples)
+    freqs
+        .iter()
+        .map(|(_, x)| **x / n_samples)
         .map(|x| if x > 0.0 { -x * x.log2() } else { 0.0 })
         .sum()
 }
